@@ -41,14 +41,14 @@ m = {
         'name': 't2n-static', 'path': '/verif/check',
         'serves_properties': [c['property_id'] for c in checks],
         'kind_free_text': 'static analysis: rustc_private fact extractor (HIR/MIR/items of the current working tree, '
-                          '/verif/driver) + Python rule engine (/verif/analysis): table rules with partial evaluation of the '
-                          'lexical functions, MIR dominance / path / taint rules, type-level and inventory rules',
+                          '/verif/driver) + Python rule engine (/verif/analysis): partial evaluation of the lexical functions (HIR), abstract interpretation of MIR against finite environment models (complete bounded case tables), '
+                          'MIR dominance / path / taint / typestate rules, type-level and inventory rules',
     }],
     'checks': checks,
     'not_applicable': na,
-    'notes': 'All verdicts are computed from /repo\'s current source without executing the crate. Each check decides named '
-             'structural clauses (necessary conditions) of its property; the clauses it cannot decide are listed in level_note '
-             'and DESIGN.md §4. hooks.source_commits lists the unguarded fix: commits (genuine defects repaired); there are no hook commits.',
+    'notes': 'All verdicts are computed from /repo\'s current source without executing the crate: rustc\'s HIR/MIR of the working tree is '
+             'evaluated by the checker\'s own evaluators against abstract environments (no compiled code runs). Each check decides named '
+             'clauses of its property; what it cannot decide is listed in level_note and DESIGN.md §10. hooks.source_commits lists the unguarded fix: commits (genuine defects repaired); there are no hook commits.',
 }
 json.dump(m, open(os.path.join(HERE, 'MANIFEST.json'), 'w'), indent=1, ensure_ascii=False)
 print('MANIFEST.json: %d checks, %d not_applicable' % (len(checks), len(na)))
